@@ -6,9 +6,12 @@ Local Open Scope N_scope.
 
 Inductive c17_step :=
 | SStore (d : diff)                                   (* writers changed the store: new dump relative to the previous one *)
-| SCompact (now R : N) (lo hi : bytes) (oc : list (list rec * outcome)) (d : diff).
+| SCompact (now R : N) (lo hi : bytes) (oc : list (list rec * outcome)) (d : diff)
     (* scanner.Compact at wall time now (ms); oc: what writers committed just before each engine delete of
        the pass (and its outcome; none listed = fault-free); dump afterwards *)
+| SCompactReq (now cur req : N) (lo hi : bytes) (oc : list (list rec * outcome)) (d : diff).
+    (* the same through Backend.Compact(req) with committed revision cur (the backend's own scanner, one border pair):
+       the pass and its mark are at the clamped revision - a request cannot cover revisions not handed out yet *)
 
 Inductive eng := EMem | EBadger.
 
@@ -38,6 +41,10 @@ Fixpoint scan_run (evp : bytes) (ttl : N) (sup : bool) (V : store) (q : list mar
   | SStore d :: t => scan_run evp ttl sup (apply_diff V d) q t
   | SCompact now R lo hi oc d :: t =>
       let '(q', _, dd) := scanner_compact evp sup ttl now R lo hi q (init_d V oc) in
+      let V' := apply_diff V d in
+      if store_eqb (sort_by rec_ltb (d_store dd)) V' then scan_run evp ttl sup V' q' t else None
+  | SCompactReq now cur req lo hi oc d :: t =>
+      let '(q', _, dd) := scanner_compact evp sup ttl now (clamp cur 0 req) lo hi q (init_d V oc) in
       let V' := apply_diff V d in
       if store_eqb (sort_by rec_ltb (d_store dd)) V' then scan_run evp ttl sup V' q' t else None
   end.
@@ -172,6 +179,15 @@ Definition worse (a b : option N) : option N :=
   | None, y => y
   end.
 
+(* one pass: every record missing afterwards is explained by the compaction proper or passes the expiry tests; nothing appears *)
+Definition pass_verdict (prefix : bytes) (ttl : N) (V V' : store) (marks' : list mark) (now R : N) (oc : list (list rec * outcome)) : option N :=
+  (* what the store would hold had only the writers acted *)
+  let W := apply_env (all_adds oc) V in
+  let here := fold_left (fun acc x => worse acc (if explained R W x then None else expiry_verdict prefix ttl now marks' V' x))
+                        (removed W V') None in
+  (* nothing may appear either *)
+  if forallb (fun y => memb y W) V' then here else Some 0.
+
 Fixpoint scan_oracle (prefix : bytes) (ttl : N) (V : store) (marks : list mark) (steps : list c17_step) : option N :=
   match steps with
   | [] => None
@@ -179,13 +195,13 @@ Fixpoint scan_oracle (prefix : bytes) (ttl : N) (V : store) (marks : list mark) 
   | SCompact now R lo hi oc d :: t =>
       let V' := apply_diff V d in
       let marks' := marks ++ [(R, now)] in
-      (* what the store would hold had only the writers acted *)
-      let W := apply_env (all_adds oc) V in
-      let here := fold_left (fun acc x => worse acc (if explained R W x then None else expiry_verdict prefix ttl now marks' V' x))
-                            (removed W V') None in
-      (* nothing may appear either *)
-      let here := if forallb (fun y => memb y W) V' then here else Some 0 in
-      worse here (scan_oracle prefix ttl V' marks' t)
+      worse (pass_verdict prefix ttl V V' marks' now R oc) (scan_oracle prefix ttl V' marks' t)
+  | SCompactReq now cur req lo hi oc d :: t =>
+      (* the only mark a request at `req` may leave is at a revision that exists: min(req, committed) *)
+      let R := clamp cur 0 req in
+      let V' := apply_diff V d in
+      let marks' := marks ++ [(R, now)] in
+      worse (pass_verdict prefix ttl V V' marks' now R oc) (scan_oracle prefix ttl V' marks' t)
   end.
 
 (* after expiry a key reads absent and can be created again; no watch event *)
@@ -209,6 +225,7 @@ Fixpoint store_after (V : store) (steps : list c17_step) : store :=
   | [] => V
   | SStore d :: t => store_after (apply_diff V d) t
   | SCompact _ _ _ _ _ d :: t => store_after (apply_diff V d) t
+  | SCompactReq _ _ _ _ _ _ d :: t => store_after (apply_diff V d) t
   end.
 
 (* engine TTL: every slot written so far is in a dump unless it belongs to an event key and its latest
